@@ -491,6 +491,7 @@ Definition C28_CONSTANTS : list N :=
           4 ..                 arbitrary bytes to from_cbor: not modelled (S only), answers [0]
           6 props              encode_properties(compress) then properties(): brotli is external, not
                                modelled (S only), answers [0]
+          7 ..                 as 4 (declared lengths beyond the input; run in a child process), answers [0]
           5 seed b z pad vlen enc err sizes..   as op 1 for a value given by a descriptor (expanded by the
                                harness only); the model runs the loop on lengths: 0 | 1 len
           9                    constants *)
@@ -531,6 +532,7 @@ Definition run_C28 (inp : list Z) : list Z :=
     match choose (ns (firstn (Z.to_nat n) r)) with Some i => [zN i] | None => [(-1)%Z] end
   | 4%Z :: _ => [0%Z]
   | 6%Z :: _ => [0%Z]
+  | 7%Z :: _ => [0%Z]
   | 9%Z :: nil => zs C28_CONSTANTS
   | _ => [(-1)%Z]
   end.
